@@ -46,3 +46,69 @@ Definition t3_eqb (a b : string * string * string) : bool :=
 Theorem C10_no_other_loops : forallb (fun l => existsb (t3_eqb l) allowed_loops) Structure.loops = true.
 Proof. vm_compute. reflexivity. Qed.
 Print Assumptions C10_no_other_loops.
+
+(** ON THE RELEASE/ACQUIRE MACHINES (Conc/Progress.v): no operation waits for another thread - a step of another thread leaves a thread's whole record
+    unchanged, and an operation returns after at most len+1 own steps whatever the others do (also if they never run again); a fresh look (the latest
+    message, or a view that has reached it) gives exactly the true availability, a stale one never more; from every reachable state there is a
+    continuation after which everything published has been consumed (the pipeline drains) *)
+Require MRB.Conc.Progress.
+Theorem C10_RAn_other_step :
+  forall (len : nat) (c : RAn.cfg_n) (e : Progress.Two.entry) (b : bool), Progress.Two.who e <> b -> Progress.Two.thr b (RAn.step_n len c e) = Progress.Two.thr b c.
+Proof. exact Progress.Two.RAn_other_step. Qed.
+Print Assumptions C10_RAn_other_step.
+
+Theorem C10_RAn_operation_bounded :
+  forall len : nat, 0 < len -> forall (script : list (bool * nat * nat)) (s : list Progress.Two.entry) (b : bool), let c := RAn.exec_n len (RAn.init_n len) script in len + 1 <= Progress.Two.own_steps b s -> exists s1 s2 : list Progress.Two.entry, s = (s1 ++ s2)%list /\ 1 <= Progress.Two.own_steps b s1 /\ Progress.Two.own_steps b s1 <= len + 1 /\ RAn.pc (Progress.Two.thr b (RAn.exec_n len c s1)) = 0.
+Proof. exact Progress.Two.RAn_operation_bounded. Qed.
+Print Assumptions C10_RAn_operation_bounded.
+
+Theorem C10_RAn_returns_alone :
+  forall len : nat, 0 < len -> forall (script : list (bool * nat * nat)) (e : Progress.Two.entry), let c := RAn.exec_n len (RAn.init_n len) script in RAn.pc (Progress.Two.thr (Progress.Two.who e) (RAn.exec_n len c (List.repeat e (Progress.Two.remaining (Progress.Two.thr (Progress.Two.who e) c))))) = 0.
+Proof. exact Progress.Two.RAn_returns_alone. Qed.
+Print Assumptions C10_RAn_returns_alone.
+
+Theorem C10_RAn_fresh_look_consumer :
+  forall len : nat, 0 < len -> forall (script : list (bool * nat * nat)) (j n0 : nat), let c := RAn.exec_n len (RAn.init_n len) script in RAn.pc (RAn.C c) = 0 -> RAn.ca (RAn.C c) < PeanoNat.Nat.max 1 n0 -> List.length (RAn.Mpi c) - 1 <= PeanoNat.Nat.max j (RA.vpi (RAn.V (RAn.C c))) -> let c' := RAn.stepC_n len j n0 c in RAn.ca (RAn.C c') = RAproof.lastabs (RAn.Mpi c) - RAn.pos (RAn.C c) /\ RAproof.lastabs (RAn.Mpi c) = RAn.pos (RAn.P c) /\ (RAn.pc (RAn.C c') = 2 /\ RAn.cnt (RAn.C c') = PeanoNat.Nat.max 1 n0 /\ PeanoNat.Nat.max 1 n0 <= RAn.pos (RAn.P c) - RAn.pos (RAn.C c) \/ RAn.pc (RAn.C c') = 0 /\ RAn.pos (RAn.P c) - RAn.pos (RAn.C c) < PeanoNat.Nat.max 1 n0).
+Proof. exact Progress.Two.RAn_fresh_look_consumer. Qed.
+Print Assumptions C10_RAn_fresh_look_consumer.
+
+Theorem C10_RAn_fresh_look_producer :
+  forall len : nat, 0 < len -> forall (script : list (bool * nat * nat)) (j n0 : nat), let c := RAn.exec_n len (RAn.init_n len) script in RAn.pc (RAn.P c) = 0 -> RAn.ca (RAn.P c) < PeanoNat.Nat.max 1 n0 -> List.length (RAn.Mci c) - 1 <= PeanoNat.Nat.max j (RA.vci (RAn.V (RAn.P c))) -> let c' := RAn.stepP_n len j n0 c in RAn.ca (RAn.P c') = RAproof.lastabs (RAn.Mci c) + len - 1 - RAn.pos (RAn.P c) /\ RAproof.lastabs (RAn.Mci c) = RAn.pos (RAn.C c) /\ (RAn.pc (RAn.P c') = 2 /\ RAn.cnt (RAn.P c') = PeanoNat.Nat.max 1 n0 /\ PeanoNat.Nat.max 1 n0 <= RAn.pos (RAn.C c) + len - 1 - RAn.pos (RAn.P c) \/ RAn.pc (RAn.P c') = 0 /\ RAn.pos (RAn.C c) + len - 1 - RAn.pos (RAn.P c) < PeanoNat.Nat.max 1 n0).
+Proof. exact Progress.Two.RAn_fresh_look_producer. Qed.
+Print Assumptions C10_RAn_fresh_look_producer.
+
+Theorem C10_RAn_load_sound :
+  forall len : nat, 0 < len -> forall (script : list (bool * nat * nat)) (j n0 : nat), let c := RAn.exec_n len (RAn.init_n len) script in (RAn.pc (RAn.C c) = 0 -> RAn.ca (RAn.C c) < PeanoNat.Nat.max 1 n0 -> RAn.ca (RAn.C (RAn.stepC_n len j n0 c)) <= RAn.pos (RAn.P c) - RAn.pos (RAn.C c)) /\ (RAn.pc (RAn.P c) = 0 -> RAn.ca (RAn.P c) < PeanoNat.Nat.max 1 n0 -> RAn.ca (RAn.P (RAn.stepP_n len j n0 c)) <= RAn.pos (RAn.C c) + len - 1 - RAn.pos (RAn.P c)).
+Proof. exact Progress.Two.RAn_load_sound. Qed.
+Print Assumptions C10_RAn_load_sound.
+
+Theorem C10_RAn_drains :
+  forall len : nat, 0 < len -> forall script : list (bool * nat * nat), exists s' : list (bool * nat * nat), let c' := RAn.exec_n len (RAn.init_n len) (script ++ s') in RAn.pc (RAn.P c') = 0 /\ RAn.pc (RAn.C c') = 0 /\ RAn.pos (RAn.C c') = RAn.pos (RAn.P c').
+Proof. exact Progress.Two.RAn_drains. Qed.
+Print Assumptions C10_RAn_drains.
+
+Theorem C10_RA3n_other_step :
+  forall (len : nat) (c : RA3n.cfg3n) (e : Progress.Three.entry) (t : RA3.tid), Progress.Three.who e <> t -> Progress.Three.thr t (RA3n.step3_n len c e) = Progress.Three.thr t c.
+Proof. exact Progress.Three.RA3n_other_step. Qed.
+Print Assumptions C10_RA3n_other_step.
+
+Theorem C10_RA3n_operation_bounded :
+  forall len : nat, 0 < len -> forall (script : list (RA3.tid * nat * nat)) (s : list Progress.Three.entry) (t : RA3.tid), let c := RA3n.exec3_n len (RA3n.init3_n len) script in len + 1 <= Progress.Three.own_steps t s -> exists s1 s2 : list Progress.Three.entry, s = (s1 ++ s2)%list /\ 1 <= Progress.Three.own_steps t s1 /\ Progress.Three.own_steps t s1 <= len + 1 /\ RA3n.pc3 (Progress.Three.thr t (RA3n.exec3_n len c s1)) = 0.
+Proof. exact Progress.Three.RA3n_operation_bounded. Qed.
+Print Assumptions C10_RA3n_operation_bounded.
+
+Theorem C10_RA3n_fresh_look_worker :
+  forall len : nat, 0 < len -> forall (script : list (RA3.tid * nat * nat)) (j n0 : nat), let c := RA3n.exec3_n len (RA3n.init3_n len) script in RA3n.pc3 (RA3n.W3 c) = 0 -> RA3n.ca3 (RA3n.W3 c) < PeanoNat.Nat.max 1 n0 -> List.length (RA3n.Mpi3 c) - 1 <= PeanoNat.Nat.max j (RA3.vpi3 (RA3n.V3 (RA3n.W3 c))) -> let c' := RA3n.stepW3_n len j n0 c in RA3n.ca3 (RA3n.W3 c') = RA3proof.lastabs3 (RA3n.Mpi3 c) - RA3n.pos3 (RA3n.W3 c) /\ RA3proof.lastabs3 (RA3n.Mpi3 c) = RA3n.pos3 (RA3n.P3 c) /\ (RA3n.pc3 (RA3n.W3 c') = 2 /\ RA3n.cnt3 (RA3n.W3 c') = PeanoNat.Nat.max 1 n0 /\ PeanoNat.Nat.max 1 n0 <= RA3n.pos3 (RA3n.P3 c) - RA3n.pos3 (RA3n.W3 c) \/ RA3n.pc3 (RA3n.W3 c') = 0 /\ RA3n.pos3 (RA3n.P3 c) - RA3n.pos3 (RA3n.W3 c) < PeanoNat.Nat.max 1 n0).
+Proof. exact Progress.Three.RA3n_fresh_look_worker. Qed.
+Print Assumptions C10_RA3n_fresh_look_worker.
+
+Theorem C10_RA3n_fresh_look_consumer :
+  forall len : nat, 0 < len -> forall (script : list (RA3.tid * nat * nat)) (j n0 : nat), let c := RA3n.exec3_n len (RA3n.init3_n len) script in RA3n.pc3 (RA3n.C3 c) = 0 -> RA3n.ca3 (RA3n.C3 c) < PeanoNat.Nat.max 1 n0 -> List.length (RA3n.Mwi3 c) - 1 <= PeanoNat.Nat.max j (RA3.vwi3 (RA3n.V3 (RA3n.C3 c))) -> let c' := RA3n.stepC3_n len j n0 c in RA3n.ca3 (RA3n.C3 c') = RA3proof.lastabs3 (RA3n.Mwi3 c) - RA3n.pos3 (RA3n.C3 c) /\ RA3proof.lastabs3 (RA3n.Mwi3 c) = RA3n.pos3 (RA3n.W3 c) /\ (RA3n.pc3 (RA3n.C3 c') = 2 /\ RA3n.cnt3 (RA3n.C3 c') = PeanoNat.Nat.max 1 n0 /\ PeanoNat.Nat.max 1 n0 <= RA3n.pos3 (RA3n.W3 c) - RA3n.pos3 (RA3n.C3 c) \/ RA3n.pc3 (RA3n.C3 c') = 0 /\ RA3n.pos3 (RA3n.W3 c) - RA3n.pos3 (RA3n.C3 c) < PeanoNat.Nat.max 1 n0).
+Proof. exact Progress.Three.RA3n_fresh_look_consumer. Qed.
+Print Assumptions C10_RA3n_fresh_look_consumer.
+
+Theorem C10_RA3n_drains :
+  forall len : nat, 0 < len -> forall script : list (RA3.tid * nat * nat), exists s' : list (RA3.tid * nat * nat), let c' := RA3n.exec3_n len (RA3n.init3_n len) (script ++ s') in RA3n.pc3 (RA3n.P3 c') = 0 /\ RA3n.pc3 (RA3n.W3 c') = 0 /\ RA3n.pc3 (RA3n.C3 c') = 0 /\ RA3n.pos3 (RA3n.W3 c') = RA3n.pos3 (RA3n.P3 c') /\ RA3n.pos3 (RA3n.C3 c') = RA3n.pos3 (RA3n.W3 c').
+Proof. exact Progress.Three.RA3n_drains. Qed.
+Print Assumptions C10_RA3n_drains.
+
